@@ -416,10 +416,49 @@ Definition C10d_handoff (c : dcfg) (t : json) (evs : list ev) : option string :=
   | None => None
   end.
 
-Definition C10d_prop_round (c : dcfg) (k : dcache) (evs : list ev) : option string :=
+(* what a sync that reported success owes a target that holds our finalizer *)
+Definition drops_finalizer (c : dcfg) (t : json) (e : ev) : bool :=
+  match is_api e with
+  | Some q => targets_d c t q && verb_eqb (q_verb q) VUpdate && negb (has_finalizer (q_body q) (d_finalizer_name c))
+  | None => false
+  end.
+
+Definition C10d_duties (c : dcfg) (t : json) (evs : list ev) (res : sync_result) : option string :=
+  let fin := d_finalizer_name c in
+  match res with
+  | SDone =>
+      if negb (has_finalizer t fin) then None else
+      if negb (dc_has_finalize c) then
+        (* leftover: removed in this very sync, selected or not, alive or dying (or found gone on the fresh read) *)
+        if existsb (drops_finalizer c t) evs ||
+           existsb (fun e => match is_api e, e_ans e with
+                             | Some q, AObj o => targets_d c t q && verb_eqb (q_verb q) VGet && negb (has_finalizer o fin)
+                             | _, _ => false end) evs
+        then None else Some "leftover-finalizer-not-removed"
+      else
+        (* with a finalize hook a finalizer holder is never ignored: a hook is called *)
+        match hook_events evs with
+        | [] => Some "no-hook-call-for-finalizer-holder"
+        | _ =>
+            match round_hook_d evs with
+            | Some (_, body, r) =>
+                let sent := jget "object" (obj_map body) in
+                (* finalized: true is followed by the update that drops the finalizer (a 404 / 409 on the
+                   status write ends the sync before it) *)
+                if dr_finalized r && has_finalizer sent fin &&
+                   negb (existsb (drops_finalizer c t) (after_hook evs)) &&
+                   forallb (fun e => negb (is_target_write c t e) || accepted e) (after_hook evs)
+                then Some "finalizer-kept-after-finalized" else None
+            | None => None
+            end
+        end
+  | _ => None
+  end.
+
+Definition C10d_prop_round (c : dcfg) (k : dcache) (evs : list ev) (res : sync_result) : option string :=
   match target_of c k with
   | None => None
-  | Some t => orelse_s (C10d_round c t evs) (C10d_handoff c t evs)
+  | Some t => orelse_s (C10d_round c t evs) (orelse_s (C10d_handoff c t evs) (C10d_duties c t evs res))
   end.
 
 (* ================= C16, converse of clause 4: a response that names a change causes a request ================= *)
